@@ -793,106 +793,6 @@ Proof. apply filter_all. reflexivity. Qed.
 Lemma NoDup_obj_params o : wf_obj o -> match o with OP _ _ _ _ => True | _ => NoDup (obj_params o) end.
 Proof. destruct o; cbn; intros W; [now apply NoDup_jparams | exact I | now apply NoDup_dens_params]. Qed.
 
-Lemma obj_step o kw o' rest :
-  wf_obj o -> obj_cond_kw o kw = Some o' -> NoDup (dom kw) -> incl (dom kw) (obj_params o) ->
-  (forall v, In v (dom kw) -> ~ In v (dom rest)) ->
-  obj_logd_kw o' rest = obj_logd_kw o (kw ++ rest) /\ wf_obj o' /\
-  obj_params o' = filter (notin kw) (obj_params o).
-Proof.
-  intros W H NDk Hk Hd. destruct o as [fl J|ld x pr c|f]; cbn [obj_cond_kw wf_obj obj_params] in *.
-  - destruct (jcond_kw_spec fl J kw o' W H) as [P [WO _]].
-    split; [now apply (step_joint fl J kw o' rest)|]. now split.
-  - destruct kw; [|discriminate]. injection H as <-. cbn [app].
-    split; [reflexivity | split; [exact W | now rewrite notin_nil]].
-  - destruct (cond_dens f (restrict kw (dens_params f))) as [f'|] eqn:EC; [|discriminate]. injection H as <-.
-    destruct (cond_dens_spec f f' kw W EC) as [_ [P [_ W']]].
-    split; [|split; [exact W' | exact P]].
-    cbn [obj_logd_kw]. unfold dens_logd_kw. rewrite P. unfold notin.
-    rewrite (keys_ok_step kw rest (dens_params f) (NoDup_dens_params f W) NDk Hk Hd).
-    now rewrite (cond_dens_val f f' kw rest W EC).
-Qed.
-
-(* ---------------- any list of conditioning steps ---------------- *)
-Lemma sequence_steps steps : forall o o' rest,
-  wf_obj o -> run_steps_kw o steps = Some o' ->
-  NoDup (dom (concat steps ++ rest)) -> incl (dom (concat steps)) (obj_params o) ->
-  obj_logd_kw o' rest = obj_logd_kw o (concat steps ++ rest) /\ wf_obj o'.
-Proof.
-  induction steps as [|kw r IH]; intros o o' rest W H ND Hk.
-  - cbn in H. injection H as <-. now split.
-  - cbn [run_steps_kw] in H. destruct (obj_cond_kw o kw) as [o1|] eqn:E1; [|discriminate].
-    cbn [concat] in *. rewrite <- app_assoc in ND. rewrite <- app_assoc.
-    rewrite dom_app in ND. apply NoDup_app_iff in ND as [NDk [NDr Hd]].
-    rewrite dom_app in Hk.
-    destruct (obj_step o kw o1 (concat r ++ rest) W E1 NDk) as [LG [W1 P1]].
-    { intros v Hv. apply Hk, in_or_app. now left. }
-    { exact Hd. }
-    destruct (IH o1 o' rest W1 H NDr) as [LG' W'].
-    { intros v Hv. rewrite P1. apply filter_In. split; [apply Hk, in_or_app; now right|].
-      unfold notin. apply negb_true_iff, amem_false. intros I. apply (Hd v I).
-      rewrite dom_app. apply in_or_app. now left. }
-    split; [now rewrite LG', LG | exact W'].
-Qed.
-
-(* ---------------- the order and grouping of the steps do not matter ---------------- *)
-Lemma lookup_perm (a b : asg) v : NoDup (dom a) -> Permutation a b -> lookup v a = lookup v b.
-Proof.
-  intros ND P. induction P as [|[k x] l l' P IH|[k x] [k' x'] l|l l' l'' P1 IH1 P2 IH2].
-  - reflexivity.
-  - cbn in *. inversion ND; subst. destruct (Nat.eqb v k); [reflexivity | now apply IH].
-  - cbn in *. inversion ND as [|? ? N _]; subst.
-    destruct (Nat.eqb v k) eqn:E1, (Nat.eqb v k') eqn:E2; try reflexivity.
-    apply Nat.eqb_eq in E1, E2. subst. exfalso. apply N. now left.
-  - rewrite IH1 by assumption. apply IH2.
-    eapply Permutation_NoDup; [|exact ND]. unfold dom. now apply Permutation_map.
-Qed.
-
-Lemma keys_ok_perm (a b : asg) ps : Permutation a b -> keys_ok a ps = keys_ok b ps.
-Proof.
-  intros P. unfold keys_ok. rewrite (Permutation_length P). f_equal.
-  induction ps as [|p ps IH]; cbn; [reflexivity|]. rewrite IH. f_equal.
-  assert (PD : Permutation (dom a) (dom b)) by (unfold dom; now apply Permutation_map).
-  destruct (amem p b) eqn:B.
-  - apply amem_In. apply amem_In in B. eapply Permutation_in; [apply Permutation_sym; exact PD | exact B].
-  - apply amem_false. apply amem_false in B. intros I. apply B. eapply Permutation_in; eauto.
-Qed.
-
-Lemma dens_logd_kw_perm (f : dens) a b : NoDup (dom a) -> Permutation a b -> dens_logd_kw f a = dens_logd_kw f b.
-Proof.
-  intros ND P. unfold dens_logd_kw. rewrite (keys_ok_perm a b _ P).
-  destruct (keys_ok b (dens_params f)); [|reflexivity].
-  apply dens_val_ext. intros v _. now apply lookup_perm.
-Qed.
-
-Lemma obj_logd_kw_perm o a b : wf_obj o -> NoDup (dom a) -> Permutation a b -> obj_logd_kw o a = obj_logd_kw o b.
-Proof.
-  intros W ND P. destruct o as [fl J|ld x pr c|f]; cbn [obj_logd_kw wf_obj] in *.
-  - rewrite !(jlogd_kw_val J _ W), (keys_ok_perm a b _ P).
-    destruct (keys_ok b (jparams J)); [|reflexivity]. unfold jval. f_equal. apply map_ext.
-    intros f. apply dens_val_ext. intros v _. now apply lookup_perm.
-  - rewrite (keys_ok_perm a b _ P), (lookup_perm a b (dname pr) ND P).
-    destruct (keys_ok b (dparams pr)); [|reflexivity]. destruct (lookup (dname pr) b) as [y|]; [|reflexivity].
-    do 2 f_equal. apply dens_val_ext. intros w _. now apply lookup_perm.
-  - now apply dens_logd_kw_perm.
-Qed.
-
-Lemma order_irrelevant o s1 s2 o1 o2 rest :
-  wf_obj o -> run_steps_kw o s1 = Some o1 -> run_steps_kw o s2 = Some o2 ->
-  Permutation (concat s1) (concat s2) ->
-  NoDup (dom (concat s1 ++ rest)) -> incl (dom (concat s1)) (obj_params o) ->
-  obj_logd_kw o1 rest = obj_logd_kw o2 rest.
-Proof.
-  intros W H1 H2 P ND Hk.
-  assert (PA : Permutation (concat s1 ++ rest) (concat s2 ++ rest)) by now apply Permutation_app_tail.
-  assert (ND2 : NoDup (dom (concat s2 ++ rest))).
-  { eapply Permutation_NoDup; [|exact ND]. unfold dom. now apply Permutation_map. }
-  assert (Hk2 : incl (dom (concat s2)) (obj_params o)).
-  { intros v Hv. apply Hk. eapply Permutation_in; [|exact Hv]. unfold dom. apply Permutation_map. now apply Permutation_sym. }
-  destruct (sequence_steps s1 o o1 rest W H1 ND Hk) as [L1 _].
-  destruct (sequence_steps s2 o o2 rest W H2 ND2 Hk2) as [L2 _].
-  rewrite L1, L2. now apply obj_logd_kw_perm.
-Qed.
-
 (* exactly one distribution and one likelihood left: always a Posterior (the "parameter names
    differ, stay joint" branch is dead for well-formed joints) *)
 Lemma reduce_posterior fl J :
@@ -1070,6 +970,118 @@ Proof.
   apply dens_val_ext. cbn [dens_params]. rewrite DP. intros v [<-|[]]. rewrite EL. cbn. now rewrite Nat.eqb_refl.
 Qed.
 
+Lemma obj_step pnamed o kw o' rest :
+  wf_obj o -> obj_cond_kw pnamed o kw = Some o' -> NoDup (dom kw) -> incl (dom kw) (obj_params o) ->
+  (forall v, In v (dom kw) -> ~ In v (dom rest)) ->
+  obj_logd_kw o' rest = obj_logd_kw o (kw ++ rest) /\ wf_obj o' /\
+  obj_params o' = filter (notin kw) (obj_params o).
+Proof.
+  intros W H NDk Hk Hd. destruct o as [fl J|ld x pr c|f]; cbn [obj_cond_kw wf_obj obj_params] in *.
+  - destruct (jcond_kw_spec fl J kw o' W H) as [P [WO _]].
+    split; [now apply (step_joint fl J kw o' rest)|]. now split.
+  - unfold post_cond in H. destruct kw as [|[k y] [|q kw]]; [| |discriminate].
+    + injection H as <-. cbn [app]. split; [reflexivity | split; [exact W | now rewrite notin_nil]].
+    + destruct (pnamed && Nat.eqb k (dname pr)) eqn:EK; [|discriminate].
+      apply andb_true_iff in EK as [_ EK]. apply Nat.eqb_eq in EK. subst k.
+      destruct (post_logd false ld x pr c [y] []) as [v|] eqn:EV; [|discriminate]. injection H as <-.
+      pose proof (post_positional false ld x pr c y W) as PP. rewrite EV in PP.
+      destruct W as [Fpr [Fld _]].
+      assert (DP : dparams pr = [dname pr]) by (unfold dparams; now rewrite Fpr).
+      split; [|split; [exact I|]].
+      * cbn [obj_logd_kw app]. unfold dens_logd_kw. cbn [dens_params dens_val]. rewrite DP.
+        destruct rest as [|r0 rest].
+        { cbn [obj_logd_kw] in PP. rewrite DP in PP. exact PP. }
+        { unfold keys_ok. cbn [length]. cbn. reflexivity. }
+      * cbn [obj_params dens_params]. rewrite DP. unfold notin, amem, mem. cbn. now rewrite Nat.eqb_refl.
+  - destruct (cond_dens f (restrict kw (dens_params f))) as [f'|] eqn:EC; [|discriminate]. injection H as <-.
+    destruct (cond_dens_spec f f' kw W EC) as [_ [P [_ W']]].
+    split; [|split; [exact W' | exact P]].
+    cbn [obj_logd_kw]. unfold dens_logd_kw. rewrite P. unfold notin.
+    rewrite (keys_ok_step kw rest (dens_params f) (NoDup_dens_params f W) NDk Hk Hd).
+    now rewrite (cond_dens_val f f' kw rest W EC).
+Qed.
+
+(* ---------------- any list of conditioning steps ---------------- *)
+Lemma sequence_steps pnamed steps : forall o o' rest,
+  wf_obj o -> run_steps_kw pnamed o steps = Some o' ->
+  NoDup (dom (concat steps ++ rest)) -> incl (dom (concat steps)) (obj_params o) ->
+  obj_logd_kw o' rest = obj_logd_kw o (concat steps ++ rest) /\ wf_obj o'.
+Proof.
+  induction steps as [|kw r IH]; intros o o' rest W H ND Hk.
+  - cbn in H. injection H as <-. now split.
+  - cbn [run_steps_kw] in H. destruct (obj_cond_kw pnamed o kw) as [o1|] eqn:E1; [|discriminate].
+    cbn [concat] in *. rewrite <- app_assoc in ND. rewrite <- app_assoc.
+    rewrite dom_app in ND. apply NoDup_app_iff in ND as [NDk [NDr Hd]].
+    rewrite dom_app in Hk.
+    destruct (obj_step pnamed o kw o1 (concat r ++ rest) W E1 NDk) as [LG [W1 P1]].
+    { intros v Hv. apply Hk, in_or_app. now left. }
+    { exact Hd. }
+    destruct (IH o1 o' rest W1 H NDr) as [LG' W'].
+    { intros v Hv. rewrite P1. apply filter_In. split; [apply Hk, in_or_app; now right|].
+      unfold notin. apply negb_true_iff, amem_false. intros I. apply (Hd v I).
+      rewrite dom_app. apply in_or_app. now left. }
+    split; [now rewrite LG', LG | exact W'].
+Qed.
+
+(* ---------------- the order and grouping of the steps do not matter ---------------- *)
+Lemma lookup_perm (a b : asg) v : NoDup (dom a) -> Permutation a b -> lookup v a = lookup v b.
+Proof.
+  intros ND P. induction P as [|[k x] l l' P IH|[k x] [k' x'] l|l l' l'' P1 IH1 P2 IH2].
+  - reflexivity.
+  - cbn in *. inversion ND; subst. destruct (Nat.eqb v k); [reflexivity | now apply IH].
+  - cbn in *. inversion ND as [|? ? N _]; subst.
+    destruct (Nat.eqb v k) eqn:E1, (Nat.eqb v k') eqn:E2; try reflexivity.
+    apply Nat.eqb_eq in E1, E2. subst. exfalso. apply N. now left.
+  - rewrite IH1 by assumption. apply IH2.
+    eapply Permutation_NoDup; [|exact ND]. unfold dom. now apply Permutation_map.
+Qed.
+
+Lemma keys_ok_perm (a b : asg) ps : Permutation a b -> keys_ok a ps = keys_ok b ps.
+Proof.
+  intros P. unfold keys_ok. rewrite (Permutation_length P). f_equal.
+  induction ps as [|p ps IH]; cbn; [reflexivity|]. rewrite IH. f_equal.
+  assert (PD : Permutation (dom a) (dom b)) by (unfold dom; now apply Permutation_map).
+  destruct (amem p b) eqn:B.
+  - apply amem_In. apply amem_In in B. eapply Permutation_in; [apply Permutation_sym; exact PD | exact B].
+  - apply amem_false. apply amem_false in B. intros I. apply B. eapply Permutation_in; eauto.
+Qed.
+
+Lemma dens_logd_kw_perm (f : dens) a b : NoDup (dom a) -> Permutation a b -> dens_logd_kw f a = dens_logd_kw f b.
+Proof.
+  intros ND P. unfold dens_logd_kw. rewrite (keys_ok_perm a b _ P).
+  destruct (keys_ok b (dens_params f)); [|reflexivity].
+  apply dens_val_ext. intros v _. now apply lookup_perm.
+Qed.
+
+Lemma obj_logd_kw_perm o a b : wf_obj o -> NoDup (dom a) -> Permutation a b -> obj_logd_kw o a = obj_logd_kw o b.
+Proof.
+  intros W ND P. destruct o as [fl J|ld x pr c|f]; cbn [obj_logd_kw wf_obj] in *.
+  - rewrite !(jlogd_kw_val J _ W), (keys_ok_perm a b _ P).
+    destruct (keys_ok b (jparams J)); [|reflexivity]. unfold jval. f_equal. apply map_ext.
+    intros f. apply dens_val_ext. intros v _. now apply lookup_perm.
+  - rewrite (keys_ok_perm a b _ P), (lookup_perm a b (dname pr) ND P).
+    destruct (keys_ok b (dparams pr)); [|reflexivity]. destruct (lookup (dname pr) b) as [y|]; [|reflexivity].
+    do 2 f_equal. apply dens_val_ext. intros w _. now apply lookup_perm.
+  - now apply dens_logd_kw_perm.
+Qed.
+
+Lemma order_irrelevant pnamed o s1 s2 o1 o2 rest :
+  wf_obj o -> run_steps_kw pnamed o s1 = Some o1 -> run_steps_kw pnamed o s2 = Some o2 ->
+  Permutation (concat s1) (concat s2) ->
+  NoDup (dom (concat s1 ++ rest)) -> incl (dom (concat s1)) (obj_params o) ->
+  obj_logd_kw o1 rest = obj_logd_kw o2 rest.
+Proof.
+  intros W H1 H2 P ND Hk.
+  assert (PA : Permutation (concat s1 ++ rest) (concat s2 ++ rest)) by now apply Permutation_app_tail.
+  assert (ND2 : NoDup (dom (concat s2 ++ rest))).
+  { eapply Permutation_NoDup; [|exact ND]. unfold dom. now apply Permutation_map. }
+  assert (Hk2 : incl (dom (concat s2)) (obj_params o)).
+  { intros v Hv. apply Hk. eapply Permutation_in; [|exact Hv]. unfold dom. apply Permutation_map. now apply Permutation_sym. }
+  destruct (sequence_steps pnamed s1 o o1 rest W H1 ND Hk) as [L1 _].
+  destruct (sequence_steps pnamed s2 o o2 rest W H2 ND2 Hk2) as [L2 _].
+  rewrite L1, L2. now apply obj_logd_kw_perm.
+Qed.
+
 Lemma post_logd_Some strict ld x pr c (args : list val) (kw : asg) v :
   wf_obj (OP ld x pr c) -> post_logd strict ld x pr c args kw = Some v -> call_complete (dparams pr) args kw.
 Proof.
@@ -1192,15 +1204,23 @@ Proof.
     apply cc_kw; [constructor | reflexivity].
 Qed.
 
-Lemma obj_logd_Some strict o (args : list val) (kw : asg) v :
-  wf_obj o -> NoDup (dom kw) ->
+Lemma obj_logd_Some vsplit strict o (args : list val) (kw : asg) v :
+  wf_obj o -> NoDup (dom kw) -> (forall J, o <> OJ FStacked J) ->
   strict = true \/ ~ main_positional_with_keywords o args kw ->
-  obj_logd strict o args kw = Some v -> call_complete (obj_params o) args kw.
+  obj_logd vsplit strict o args kw = Some v -> call_complete (obj_params o) args kw.
 Proof.
-  destruct o as [fl J|ld x pr c|f]; cbn [wf_obj obj_logd obj_params]; intros W ND G H.
-  - now apply (jlogd_Some J args kw v).
+  destruct o as [fl J|ld x pr c|f]; cbn [wf_obj obj_logd obj_params]; intros W ND NS G H.
+  - destruct fl; [now apply (jlogd_Some J args kw v) | now apply (jlogd_Some J args kw v) | now elim (NS J)].
   - now apply (post_logd_Some strict ld x pr c args kw v).
   - now apply (dens_logd_Some strict f args kw v).
+Qed.
+
+(* the stacked object takes exactly one positional argument (no keywords) *)
+Lemma stacked_call_Some vsplit (J : list dens) (args : list val) (kw : asg) v :
+  stacked_call vsplit J args kw = Some v ->
+  exists x, args = [x] /\ kw = [] /\ jlogd_kw J (combine (jparams J) (vsplit (jdims J) x)) = Some v.
+Proof.
+  unfold stacked_call. destruct args as [|x [|y r]]; try discriminate. destruct kw; [|discriminate]. eauto.
 Qed.
 
 (* what "names every parameter exactly once" excludes *)
@@ -1345,3 +1365,66 @@ Proof.
   - destruct Hv as [->|Hv]; [rewrite Nat.eqb_refl in E; discriminate|]. now apply (IH xs).
 Qed.
 End DistPositional.
+
+(* ---------------- the order of summation (no monoid law is used) ---------------- *)
+Section Order.
+Variable val : Type.
+Variable M : Mon.
+Notation asg := (list (var * val)).
+
+(* JointDistribution.logd: logd = 0; logd += factor.logd(...) over the factors in their order *)
+Lemma jlogd_kw_order (J : list (dens val M)) (a : asg) :
+  wf val M J ->
+  jlogd_kw J a = if keys_ok a (jparams J)
+                 then fold_left oadd (map (fun f => dens_val f a) J) (Some (mzero M)) else None.
+Proof.
+  intros W. unfold jlogd_kw. destruct (keys_ok a (jparams J)) eqn:K; [|reflexivity].
+  unfold osum. f_equal. apply map_ext_in. intros f Hf.
+  pose proof (NoDup_jparams val M J W) as NDJ. destruct W as [_ [WD WI]]. rewrite Forall_forall in WD, WI.
+  pose proof (NoDup_dens_params val M f (WD f Hf)) as NDf.
+  unfold dens_logd_kw.
+  assert (keys_ok (restrict a (dens_params f)) (dens_params f) = true) as ->.
+  { apply keys_ok_iff; [assumption|]. eapply complete_restrict; [|apply (WI f Hf)].
+    apply keys_ok_iff; [exact NDJ | exact K]. }
+  apply dens_val_ext. intros v Hv. apply lookup_restrict. now apply mem_In.
+Qed.
+
+(* reduction to a single Distribution: its own _constant + (0 + e1 + e2 + ...) *)
+Lemma reduce_distribution fl (J : list (dens val M)) :
+  wf val M J -> length (filter isD J) = 1 -> filter isL J = [] ->
+  exists d, In (D d) J /\ reduce fl J = Some (OD (D (add_const d (evsum J)))).
+Proof.
+  intros W HD HL. unfold reduce. rewrite HL.
+  destruct (filter isD J) as [|fd [|fd2 rd]] eqn:ED; try discriminate.
+  assert (In fd (filter isD J)) as I by (rewrite ED; now left).
+  apply filter_In_isD in I as [d [-> Id]]. exists d. split; [assumption | reflexivity].
+Qed.
+End Order.
+
+(* ---------------- BayesianProblem views and the stacked object ---------------- *)
+Section Views.
+Variable val : Type.
+Variable M : Mon.
+Notation asg := (list (var * val)).
+
+Lemma problem_views ld data pr (c : car M) (x : val) :
+  wf_obj val M (OP ld data pr c) ->
+  obj_view 0 (OP ld data pr c) = Some (OD (L ld data)) /\
+  obj_view 1 (OP ld data pr c) = Some (OD (D pr)) /\
+  obj_logd_kw (OP ld data pr c) [(dname pr, x)] =
+    oadd (oadd (obj_logd_kw (OD (L ld data)) [(dname pr, x)]) (obj_logd_kw (OD (D pr)) [(dname pr, x)])) (Some c).
+Proof.
+  intros [Fpr [Fld _]]. split; [reflexivity | split; [reflexivity|]].
+  assert (DP : dparams pr = [dname pr]) by (unfold dparams; now rewrite Fpr).
+  cbn [obj_logd_kw]. unfold dens_logd_kw. cbn [dens_params]. rewrite DP, Fld.
+  unfold keys_ok. cbn. now rewrite Nat.eqb_refl.
+Qed.
+
+Lemma stacked_object vsplit strict fl (J : list (dens val M)) (x : val) (vals : list val) :
+  wf val M J -> vsplit (jdims J) x = vals ->
+  obj_stack (OJ fl J) = Some (OJ FStacked J) /\
+  obj_logd vsplit strict (OJ FStacked J) [x] [] = obj_logd_kw (OJ FStacked J) (combine (jparams J) vals).
+Proof.
+  intros W <-. split; [|reflexivity]. cbn. now rewrite (wf_init_ok val M J W).
+Qed.
+End Views.
